@@ -31,10 +31,14 @@ def load(path: str | os.PathLike, format: str | None = None) -> _core.Model:
     # by doing memory mapping directly.
     proto = onnx.load(path, format=format, load_external_data=False)
     model = serde.deserialize_model(proto)
-    base_dir = os.path.dirname(path)
+    # Use the absolute directory so that a bare file name does not produce an empty
+    # base directory (which would disable the external data containment checks)
+    base_dir = os.path.dirname(os.path.abspath(path))
     # Set the base directory for external data to the directory of the ONNX file
     # so that relative paths are resolved correctly.
     _external_data.set_base_dir(model.graph, base_dir)
+    for function in model.functions.values():
+        _external_data.set_base_dir(function.graph, base_dir)
     return model
 
 
